@@ -115,6 +115,41 @@ def factory_skeleton(m, problems):
             problems.append('session.py: module-level binding of %s is %s, expected %s' % (nm, binds.get(nm), w))
 
 
+def signed_factory(m, problems):
+    """SignedCookieSessionFactory is pinned in two variants (pins_variants.json): the original one, and the one that
+    wraps the SignedSerializer in _CanonicalBase64Serializer (then that class is pinned too and `import base64`
+    checked).  -> canonical_check"""
+    import json
+    with open(os.path.join(HERE, 'pins_variants.json')) as f:
+        var = json.load(f)['pyramid/session.py']
+    fn = m.find('SignedCookieSessionFactory')
+    if fn is None:
+        problems.append('SignedCookieSessionFactory not found')
+        return False
+    h = F.shape(fn)
+    if h == var['SignedCookieSessionFactory']['orig']:
+        return False
+    if h == var['SignedCookieSessionFactory']['canonical']:
+        ok = True
+        for q in ('__init__', 'dumps', 'loads'):
+            node = m.find('_CanonicalBase64Serializer.' + q)
+            if node is None or F.shape(node) != var['_CanonicalBase64Serializer.' + q]:
+                problems.append('shape pin pyramid/session.py:_CanonicalBase64Serializer.%s changed or missing' % q)
+                ok = False
+        cls = m.find('_CanonicalBase64Serializer')
+        if cls is None or cls.bases or cls.decorator_list or [
+                b.name for b in cls.body if isinstance(b, ast.FunctionDef)] != ['__init__', 'dumps', 'loads']:
+            problems.append('_CanonicalBase64Serializer: unexpected members / bases')
+            ok = False
+        if not any(isinstance(st, ast.Import) and [a.name for a in st.names] == ['base64'] for st in m.tree.body):
+            problems.append('session.py: `import base64` missing')
+            ok = False
+        return ok
+    problems.append('shape pin pyramid/session.py:SignedCookieSessionFactory changed (%s): the hand-written model follows '
+                    'one of the two pinned variants' % h)
+    return False
+
+
 def _find_compare(fn, pred):
     hits = [n for n in ast.walk(fn) if isinstance(n, ast.Compare) and len(n.ops) == 1 and pred(n)]
     return hits
@@ -134,6 +169,7 @@ def extract(src):
             raise ValueError('CookieSession class not found')
         vals['table'] = wrapper_table(cls, problems)
         factory_skeleton(m, problems)
+        vals['canonical_check'] = signed_factory(m, problems)
         # timeout test in __init__:  now - renewed OP self._timeout
         init = m.find('BaseCookieSessionFactory.CookieSession.__init__')
         h = _find_compare(init, lambda n: ast.unparse(n.left) == 'now - renewed' and ast.unparse(n.comparators[0]) == 'self._timeout')
@@ -205,6 +241,7 @@ def emit(vals):
     o.append('(* (method name, wrapper kind 0 bare / 1 manage_accessed / 2 manage_changed, wrapped target) read from the class body *)\n')
     o.append('Definition wrapper_table : list (text * (N * text)) :=\n  [' + ';\n   '.join(
         '(%s, (%d%%N, %s))' % (F.coq_text(n), k, F.coq_text(t)) for n, k, t in vals['table']) + '].\n')
+    o.append('(* does SignedCookieSessionFactory accept only the canonical cookie text? *)\nDefinition canonical_check : bool := %s.\n' % F.coq_bool(vals.get('canonical_check', False)))
     o.append('Definition flash_prefix : text := %s.\n' % F.coq_text(vals['flash_prefix']))
     o.append('Definition csrf_key : text := %s.\n' % F.coq_text(vals['csrf_key']))
     o.append('Definition urandom_n : N := %d%%N.\n' % vals['urandom_n'])
